@@ -33,7 +33,7 @@ func (g *pg) datum(d int, sc scope) val.V {
 	case c == 6:
 		return val.K("err")
 	case c == 7:
-		return val.M(map[string]val.V{val.KwMark + "k": g.leaf(TInt, sc)})
+		return val.M(map[string]val.V{val.KwMark + "k": g.leaf(TInt, sc), val.KwMark + "c": val.I(1)})
 	case c == 8:
 		return call("list", g.leaf(TInt, sc), g.leaf(TAny, sc))
 	}
